@@ -317,6 +317,13 @@ def view_apply(o, op):
         o.ctrlpts = copy.deepcopy(op[1])
         return None
     if t == "setwts":
+        if len(op) > 2 and op[2] == "inplace":
+            # the read-modify-write idiom: edit the list the getter hands out and assign it back
+            lst = o.weights
+            if isinstance(lst, list) and len(lst) == len(op[1]):
+                lst[:] = list(op[1])
+                o.weights = lst
+                return None
         o.weights = list(op[1])
         return None
     if t == "getw":
@@ -380,7 +387,7 @@ class Views(Family):
                     if rng.random() < 0.08:
                         mal = "zero"
                         w[rng.randrange(m)] = 0.0
-                    ops.append(["setwts", w])
+                    ops.append(["setwts", w] + (["inplace"] if (len(w) == m and rng.random() < 0.35) else []))
                 elif r < 0.72:
                     ops.append(["getp"])
                 elif r < 0.88:
